@@ -244,6 +244,38 @@ fn c28_count_resets_only_by_time_or_expiry() {
     kani::cover!(matches!(sl.state, LockState::Unlocked(..)) && was_locked, "unlocked, count kept");
 }
 
+/// (c2) An administrator expiry clears a lock at most once: after the value E has been applied to
+/// a locked credential (last_expire_at == E), presenting the same E again -- on every later
+/// login, as the server does while the attribute stays on the account -- never clears a NEW
+/// lock, whatever happened in between.
+#[kani::proof]
+fn c28_admin_expiry_applies_once() {
+    let policy = any_pw_or_totp();
+    let e = any_time_lt(1 << 32);
+    let st = any_state();
+    let (was_locked, was_init) = (matches!(st, LockState::Locked { .. }), matches!(st, LockState::Init));
+    let mut sl = CredSoftLock { state: st, policy, last_expire_at: e };
+    let ct1 = any_time_lt(1 << 32);
+    sl.apply_time_step(ct1, Some(e));
+    let ct2 = any_time_lt(1 << 32);
+    kani::assume(ct2 >= ct1);
+    sl.apply_time_step(ct2, Some(e));
+    let ct3 = any_time_lt(1 << 32);
+    kani::assume(ct3 >= ct2);
+    kani::assume(sl.is_valid());
+    sl.record_failure(ct3);
+    let (unlock_at, reset_at) = match sl.state {
+        LockState::Locked { unlock_at, reset_at, .. } => (unlock_at, reset_at),
+        _ => unreachable!(),
+    };
+    let ct4 = any_time_lt(1 << 32);
+    kani::assume(ct4 >= ct3 && ct4 <= unlock_at && ct4 <= reset_at);
+    sl.apply_time_step(ct4, Some(e));
+    check!(!sl.is_valid(), "C28: an administrator expiry that was already applied never clears a later lock");
+    kani::cover!(e < ct3 && was_locked, "stale expiry in the past, lock re-established");
+    kani::cover!(was_init, "started from Init");
+}
+
 /// (d) Policy tables: reset_at is the end of the window containing ct; delays are 1/3/5/10 s and
 /// the lock holds until the window ends once the budget is used up.
 #[kani::proof]
